@@ -478,6 +478,11 @@ func (r *Router) formatPath(path string) string {
 	}
 
 	path = strings.TrimSpace(path)
+	// only contains whitespace chars
+	if path == "" {
+		return "/"
+	}
+
 	// clear last slash: '/'
 	if !r.strictLastSlash && path[len(path)-1] == '/' {
 		path = strings.TrimRight(path, "/") // TODO alloc 1 times
